@@ -25,6 +25,7 @@ def run(check, ctx):
     roundtrip_rows(check, repo)
     sec1_toy_rows(check, repo)
     identifier_tables(check, repo)
+    pbes2_roundtrip_rows(check, repo, thorough=ctx.tier == "thorough")
     pem_padding_rows(check, repo)
     passphrase_encoding_siblings(check, repo)
     b64 = {"binascii.b2a_base64": lambda i, a, kw, st, node: b"<B64>\n"}
@@ -315,6 +316,230 @@ def identifier_tables(check, repo):
     check.ob("K", "K|oid.curves", not wrong, "lib/Crypto/PublicKey/_nist_ecc.py", 1,
              extracted="; ".join(wrong[:3]) if wrong else "%d curves: OID and OpenSSH key type as assigned" % len(STD_CURVES),
              expected="SEC 2 / RFC 5480 2.1.1.1 (NIST curves), RFC 8410 3 (Ed25519, Ed448, X25519, X448), RFC 5656 6.1, RFC 8709 4")
+
+
+def pbes2_roundtrip_rows(check, repo, thorough=False):
+    """PBES2.encrypt / PBES2.decrypt (and PKCS8.wrap / unwrap above them) agree for EVERY protection string the writer
+    accepts: 12 key-derivation choices (PBKDF2 with 11 HMAC hashes, scrypt) x 7 ciphers.  The writer and the reader
+    have separate tables (protection name -> key size, module, mode, OID; OID -> the same; hash name -> hash -> HMAC OID
+    -> hash OID -> hash), so a slip in one entry of one table only shows for that protection.  Both functions, the
+    DER writer / reader, pad / unpad and Hash.new are interpreted; the KDFs are tagged functions of (passphrase, salt,
+    key length, cost parameters, hash), the ciphers keyed bijections / a keyed stream with a keyed tag.  Expected:
+    decrypt(encrypt(x)) == x; the reader derives the very key the writer derived; another passphrase never returns x
+    (and raises ValueError for the GCM variants, whose stand-in tag is keyed)."""
+    import hashlib
+    from ..par import pmap
+    from ..absval import ABuiltin
+    PB = "Crypto.IO._PBES"
+    mod = repo.module(PB)
+    f_enc, f_dec = repo.func(mod, "PBES2.encrypt"), repo.func(mod, "PBES2.decrypt")
+    HASHES = ["SHA1", "SHA224", "SHA256", "SHA384", "SHA512", "SHA512-224", "SHA512-256", "SHA3-224", "SHA3-256", "SHA3-384", "SHA3-512"]
+    CIPHERS = ["DES-EDE3-CBC", "AES128-CBC", "AES192-CBC", "AES256-CBC", "AES128-GCM", "AES192-GCM", "AES256-GCM"]
+    KEYSIZE = {"DES-EDE3-CBC": 24, "AES128-CBC": 16, "AES192-CBC": 24, "AES256-CBC": 32, "AES128-GCM": 16, "AES192-GCM": 24, "AES256-GCM": 32}
+    HMODS = {"SHA1": ("SHA1", None), "SHA224": ("SHA224", None), "SHA256": ("SHA256", None), "SHA384": ("SHA384", None), "SHA512": ("SHA512", None),
+             "SHA512-224": ("SHA512", "224"), "SHA512-256": ("SHA512", "256"), "SHA3-224": ("SHA3_224", None), "SHA3-256": ("SHA3_256", None),
+             "SHA3-384": ("SHA3_384", None), "SHA3-512": ("SHA3_512", None)}
+    from .C03 import MD_TABLE
+    OIDS = dict((m, oid) for m, c, ds, bs, oid in MD_TABLE)
+    OIDS.update({"SHA512": "2.16.840.1.101.3.4.2.3", "SHA512/224": "2.16.840.1.101.3.4.2.5", "SHA512/256": "2.16.840.1.101.3.4.2.6"})
+
+    def expand(tag, n):
+        out, c = b"", 0
+        while len(out) < n:
+            out += hashlib.sha256(tag + c.to_bytes(4, "big")).digest()
+            c += 1
+        return out[:n]
+
+    def feistel(key, blk, inv=False):
+        h = len(blk) // 2
+        L, R = blk[:h], blk[h:]
+        for r in ((3, 2, 1, 0) if inv else (0, 1, 2, 3)):
+            if inv:
+                L, R = bytes(x ^ y for x, y in zip(R, hashlib.sha256(b"B%d" % r + key + L).digest()[:h])), L
+            else:
+                L, R = R, bytes(x ^ y for x, y in zip(L, hashlib.sha256(b"B%d" % r + key + R).digest()[:h]))
+        return L + R
+
+    def world(log):
+        def hash_obj(i, st, hid):
+            o = i.new_obj(st, label="shash")
+            st.heap[o.ident].update({"kind": "shash", "hid": hid, "oid": OIDS[hid], "digest_size": 20, "block_size": 64})
+            return o
+
+        def mk_hash_new(mname):
+            def f(i, a, kw, st, node):
+                tr = kw.get("truncate")
+                return hash_obj(i, st, mname if not tr else "%s/%s" % (mname, tr))
+            return f
+
+        def m_pbkdf2(i, a, kw, st, node):
+            pw, salt, dk, cnt = (list(a) + [None] * 4)[:4]
+            hm = kw.get("hmac_hash_module")
+            hid = st.heap.get(getattr(hm, "ident", -1), {}).get("hid")
+            if not all(isinstance(x, (bytes, bytearray)) for x in (pw, salt)) or not isinstance(dk, int) or not isinstance(cnt, int) or hid is None:
+                return ABytes(None)
+            log.append(("pbkdf2", bytes(pw), bytes(salt), dk, cnt, hid))
+            return expand(b"PBKDF2|%d|%s|" % (cnt, hid.encode()) + bytes(pw) + b"|" + bytes(salt), dk)
+
+        def m_scrypt(i, a, kw, st, node):
+            pw, salt, dk, n, r, p_ = (list(a) + [None] * 6)[:6]
+            if not all(isinstance(x, (bytes, bytearray)) for x in (pw, salt)) or not all(isinstance(x, int) for x in (dk, n, r, p_)):
+                return ABytes(None)
+            log.append(("scrypt", bytes(pw), bytes(salt), dk, n, r, p_))
+            return expand(b"SCRYPT|%d|%d|%d|" % (n, r, p_) + bytes(pw) + b"|" + bytes(salt), dk)
+
+        def mk_cipher_new(name, bs, keylens):
+            def f(i, a, kw, st, node):
+                key, mode = (list(a) + [None] * 2)[:2]
+                if not isinstance(key, (bytes, bytearray)) or len(key) not in keylens:
+                    i._diverged = i.do_raise("ValueError", st, node)
+                    return UNK
+                o = i.new_obj(st, label="scipher")
+                if mode == 2 and isinstance(kw.get("iv"), (bytes, bytearray)) and len(kw["iv"]) == bs:
+                    st.heap[o.ident].update({"kind": "cbc", "alg": name, "key": bytes(key), "reg": bytes(kw["iv"]), "block_size": bs})
+                elif mode == 11 and name == "AES" and isinstance(kw.get("nonce"), (bytes, bytearray)) and len(kw["nonce"]) > 0:
+                    st.heap[o.ident].update({"kind": "gcm", "alg": name, "key": bytes(key), "nonce": bytes(kw["nonce"]), "block_size": bs})
+                else:
+                    i._diverged = i.do_raise("ValueError", st, node)
+                    return UNK
+                return o
+            return f
+
+        def cbc(dec):
+            def f(i, base, a, kw, st, node):
+                h = st.heap.get(getattr(base, "ident", -1), {})
+                d = a[0] if a else None
+                if h.get("kind") != "cbc" or not isinstance(d, (bytes, bytearray)):
+                    return ABytes(None)
+                bs = h["block_size"]
+                if len(d) % bs:
+                    i._diverged = i.do_raise("ValueError", st, node)
+                    return UNK
+                out = b""
+                key = h["alg"].encode() + h["key"]
+                for o in range(0, len(d), bs):
+                    blk = bytes(d[o:o + bs])
+                    if dec:
+                        out += bytes(x ^ y for x, y in zip(feistel(key, blk, inv=True), h["reg"]))
+                        h["reg"] = blk
+                    else:
+                        h["reg"] = feistel(key, bytes(x ^ y for x, y in zip(blk, h["reg"])))
+                        out += h["reg"]
+                return out
+            return f
+
+        def gcm_ks(h, n):
+            return expand(b"GCMKS|" + h["key"] + b"|" + h["nonce"], n)
+
+        def gcm_tag(h, ct):
+            return hashlib.sha256(b"GCMTAG|" + h["key"] + b"|" + h["nonce"] + b"|" + ct).digest()[:16]
+
+        def m_ead(i, base, a, kw, st, node):
+            h = st.heap.get(getattr(base, "ident", -1), {})
+            d = a[0] if a else None
+            if h.get("kind") != "gcm" or not isinstance(d, (bytes, bytearray)):
+                return UNK
+            ct = bytes(x ^ y for x, y in zip(d, gcm_ks(h, len(d))))
+            return (ct, gcm_tag(h, ct))
+
+        def m_dav(i, base, a, kw, st, node):
+            h = st.heap.get(getattr(base, "ident", -1), {})
+            ct, tag = (list(a) + [None] * 2)[:2]
+            if h.get("kind") != "gcm" or not isinstance(ct, (bytes, bytearray)) or not isinstance(tag, (bytes, bytearray)):
+                return UNK
+            if bytes(tag) != gcm_tag(h, bytes(ct)):
+                i._diverged = i.do_raise("ValueError", st, node)
+                return UNK
+            return bytes(x ^ y for x, y in zip(ct, gcm_ks(h, len(ct))))
+        em = {"Crypto.Protocol.KDF.PBKDF2": m_pbkdf2, "Crypto.Protocol.KDF.scrypt": m_scrypt,
+              "Crypto.Cipher.AES.new": mk_cipher_new("AES", 16, (16, 24, 32)), "Crypto.Cipher.DES3.new": mk_cipher_new("DES3", 8, (16, 24)),
+              "vstat.rand": lambda i, a, kw, st, node: bytes((0xC0 + 7 * j) & 0xFF for j in range(a[0])) if a and isinstance(a[0], int) else UNK}
+        for m in set(x[0] for x in HMODS.values()):
+            em["Crypto.Hash.%s.new" % m] = mk_hash_new(m)
+        it = Interp(repo, max_depth=14, budget=6000000, extra_models=em,
+                    method_models={"encrypt": cbc(False), "decrypt": cbc(True), "encrypt_and_digest": m_ead, "decrypt_and_verify": m_dav,
+                                   "new": lambda i, base, a, kw, st, node: base, "update": lambda i, base, a, kw, st, node: base,
+                                   "copy": lambda i, base, a, kw, st, node: base, "digest": lambda i, base, a, kw, st, node: bytes(20)})
+        it.unroll_limit = 600
+        it.for_limit = 300
+        it.ffi_default = 0          # strxor inside the real HMAC constructor (only its .oid is used)
+        return it
+
+    def one(job):
+        kdf, cipher, ln = job
+        prot = ("scrypt" if kdf == "scrypt" else "PBKDF2WithHMAC-" + kdf) + "And" + cipher
+        params = {"iteration_count": 16 if kdf == "scrypt" else 7, "salt_size": 9}
+        if kdf == "scrypt":
+            params.update({"block_size": 3, "parallelization": 2})
+        data = bytes((0x31 + 5 * j) & 0xFF for j in range(ln))
+        log1 = []
+        it = world(log1)
+        res = it.run(mod, f_enc, {"data": data, "passphrase": b"correct horse", "protection": prot, "prot_params": params, "randfunc": ABuiltin("vstat.rand")})
+        r = res.returns()
+        if len(r) != 1 or res.raises() or not isinstance(r[0].value, (bytes, bytearray)):
+            return "%s: encrypt not decided (%d exits, raises %s)" % (prot, len(r), res.raise_classes())
+        blob = bytes(r[0].value)
+        if len(log1) != 1 or log1[0][3] != KEYSIZE[cipher]:
+            return "%s: the writer derives %r" % (prot, [x[:1] + x[3:] for x in log1])
+        if kdf != "scrypt":
+            m_, t_ = HMODS[kdf]
+            if log1[0][5] != (m_ if not t_ else "%s/%s" % (m_, t_)) or log1[0][4] != 7 or len(log1[0][2]) != 9:
+                return "%s: the writer runs PBKDF2 with HMAC-%s, %d iterations, %d-byte salt" % (prot, log1[0][5], log1[0][4], len(log1[0][2]))
+        elif log1[0][4:] != (16, 3, 2) or len(log1[0][2]) != 9:
+            return "%s: the writer runs scrypt with (N, r, p) = %r, %d-byte salt" % (prot, log1[0][4:], len(log1[0][2]))
+        log2 = []
+        it = world(log2)
+        res = it.run(mod, f_dec, {"data": blob, "passphrase": b"correct horse"})
+        r = res.returns()
+        if len(r) != 1 or res.raises():
+            return "%s, %d bytes: decrypt(encrypt(x)) raises %s (the reader derives %r, the writer %r)" % (prot, ln, res.raise_classes(), [x[:1] + x[3:] for x in log2], [x[:1] + x[3:] for x in log1])
+        if not isinstance(r[0].value, (bytes, bytearray)) or bytes(r[0].value) != data:
+            return "%s, %d bytes: decrypt(encrypt(x)) != x (the reader derives %r, the writer %r)" % (prot, ln, [x[:1] + x[3:] for x in log2], [x[:1] + x[3:] for x in log1])
+        if log2 != log1:
+            return "%s: the reader derives %r, the writer %r" % (prot, [x[:1] + x[3:] for x in log2], [x[:1] + x[3:] for x in log1])
+        it = world([])
+        res = it.run(mod, f_dec, {"data": blob, "passphrase": b"another horse"})
+        r = res.returns()
+        if r and not res.raises() and isinstance(r[0].value, (bytes, bytearray)) and bytes(r[0].value) == data:
+            return "%s: another passphrase returns the data" % prot
+        if cipher.endswith("GCM") and (r or set(res.raise_classes()) != {"ValueError"}):
+            return "%s: another passphrase is not refused with ValueError (%d exits, %s)" % (prot, len(r), res.raise_classes())
+        return None
+    jobs = []
+    for k, kdf in enumerate(HASHES + ["scrypt"]):
+        for c, cipher in enumerate(CIPHERS):
+            jobs.append((kdf, cipher, (0, 1, 7, 8, 15, 16, 17, 40)[(k + c) % 8]))
+    errs = pmap(one, jobs)
+    wrong = [e for e in errs if e]
+    und = [e for e in wrong if "not decided" in e]
+    if und and len(und) == len(jobs):
+        raise AnalysisError("PBES2 round trips could not be interpreted: %s" % und[0])
+    check.ob("K-pw", "K-pw|pbes2.roundtrip", not wrong, mod.path, f_enc.lineno,
+             extracted=("%d of %d protections differ: " % (len(wrong), len(jobs)) + "; ".join(wrong[:3])) if wrong else "%d protections (12 KDF choices x 7 ciphers): decrypt(encrypt(x)) == x, the reader derives the writer's key (KDF, hash, salt, cost, key length), another passphrase never returns x" % len(jobs),
+             expected="PKCS#5 v2.1 PBES2: every protection the writer offers is read back by the reader with the same passphrase, and refused with another")
+    # PKCS#8 on top: wrap / unwrap with and without a passphrase
+    P8 = "Crypto.IO.PKCS8"
+    m8 = repo.module(P8)
+    wrong = []
+    for prot in (None, "PBKDF2WithHMAC-SHA512-256AndAES192-GCM", "scryptAndAES256-CBC"):
+        for pw in (None, b"pass phrase"):
+            key = bytes(range(40, 77))
+            it = world([])
+            res = it.run(m8, repo.func(m8, "wrap"), {"private_key": key, "key_oid": "1.2.840.113549.1.1.1", "passphrase": pw, "protection": prot,
+                                                      "prot_params": {"iteration_count": 16}, "key_params": None, "randfunc": ABuiltin("vstat.rand")}, bind_defaults=True)
+            r = res.returns()
+            if len(r) != 1 or res.raises() or not isinstance(r[0].value, (bytes, bytearray)):
+                wrong.append("wrap(%s, %s): %d exits, raises %s" % (prot, "passphrase" if pw else "no passphrase", len(r), res.raise_classes()))
+                continue
+            it = world([])
+            res = it.run(m8, repo.func(m8, "unwrap"), {"p8_private_key": bytes(r[0].value), "passphrase": pw})
+            r2 = res.returns()
+            got = r2[0].value if len(r2) == 1 and not res.raises() else None
+            if not (isinstance(got, (tuple, list)) and len(got) == 3 and got[0] == "1.2.840.113549.1.1.1" and bytes(got[1]) == key and got[2] is None):
+                wrong.append("unwrap(wrap(key, %s, %s)) = %r (%s)" % (prot, "passphrase" if pw else "no passphrase", got if got is None else (got[0], bytes(got[1])[:6], got[2]), res.raise_classes()))
+    check.ob("K-pw", "K-pw|pkcs8.roundtrip", not wrong, m8.path, repo.func(m8, "wrap").lineno,
+             extracted="; ".join(wrong[:3]) if wrong else "6 rows: unwrap(wrap(key, oid)) == (oid, key, None) in clear and under PBES2 (default, PBKDF2/GCM, scrypt/CBC)",
+             expected="PKCS#8 PrivateKeyInfo / EncryptedPrivateKeyInfo round trip (RFC 5208 5, 6)")
 
 
 def pem_padding_rows(check, repo):
